@@ -266,6 +266,9 @@ impl P11 {
         for len in [21usize, 33, 64, 200] {
             cases.push(Case::Sort((0..len).map(|i| V::Int(((i * 7919) % 101) as i64 - 50)).collect()));
             cases.push(Case::Sort((0..len).map(|i| if i % 2 == 0 { V::Float(((i * 31) % 17) as f64 / 4.0) } else { V::Int((i % 5) as i64) }).collect()));
+            // integers above 2^53 mixed with the doubles next to them (comparison as doubles is not transitive there)
+            cases.push(Case::Sort((0..len).map(|i| if i % 3 == 0 { V::Float(9007199254740992.0 + (2 * (i % 3)) as f64) } else { V::Int((1i64 << 53) + ((i * 7) % 9) as i64 - 2) }).collect()));
+            cases.push(Case::Sort((0..len).map(|i| if i % 4 == 1 { V::Float(9007199254740992.0 + (2 * (i % 4)) as f64) } else { V::Int((1i64 << 53) + (len - i) as i64 % 6) }).collect()));
         }
         P11 { kinds, cases }
     }
@@ -326,13 +329,72 @@ impl Property for P11 {
                                 j -= 1;
                             }
                         }
-                        // compare as sequences of canonical values up to ties between equal int/float values
-                        let sorted = arr(expect.clone());
-                        let want = format!("[{},{},null,null]", sorted.canon(), sorted.canon());
-                        if g == want {
+                        // any non-decreasing permutation is right: values that compare equal (an integer and the
+                        // double it rounds to) may come out in either order
+                        let fmt = |e: &Vec<V>| {
+                            let s = arr(e.clone());
+                            format!("[{},{},null,null]", s.canon(), s.canon())
+                        };
+                        let want = fmt(&expect);
+                        let mut ok = g == want;
+                        if !ok && v.len() <= 5 {
+                            // enumerate the permutations of the input, keep the non-decreasing ones
+                            let n = v.len();
+                            let mut idx: Vec<usize> = (0..n).collect();
+                            let mut c = vec![0usize; n];
+                            let mut check = |p: &Vec<usize>| {
+                                let cand: Vec<V> = p.iter().map(|i| v[*i].clone()).collect();
+                                let sorted = cand.windows(2).all(|w| refbuiltins::cmp_vals(&w[0], &w[1]) != Some(std::cmp::Ordering::Greater));
+                                sorted && fmt(&cand) == g
+                            };
+                            ok = check(&idx);
+                            let mut i = 0;
+                            while !ok && i < n {
+                                // Heap's algorithm
+                                if c[i] < i {
+                                    if i % 2 == 0 { idx.swap(0, i) } else { idx.swap(c[i], i) }
+                                    ok = check(&idx);
+                                    c[i] += 1;
+                                    i = 0;
+                                } else {
+                                    c[i] = 0;
+                                    i += 1;
+                                }
+                            }
+                        }
+                        if !ok && v.len() > 5 {
+                            // long arrays: besides the stable order under the doubles comparison, the stable order
+                            // under the exact comparison of integers and floats (which refines it) is accepted
+                            let exact = |x: &V, y: &V| -> Option<std::cmp::Ordering> {
+                                let ex = |i: i64, f: f64| -> std::cmp::Ordering {
+                                    if f >= 9223372036854775808.0 {
+                                        std::cmp::Ordering::Less
+                                    } else if f < -9223372036854775808.0 {
+                                        std::cmp::Ordering::Greater
+                                    } else {
+                                        let t = f.trunc() as i64;
+                                        i.cmp(&t).then(if f.fract() > 0.0 { std::cmp::Ordering::Less } else if f.fract() < 0.0 { std::cmp::Ordering::Greater } else { std::cmp::Ordering::Equal })
+                                    }
+                                };
+                                match (x, y) {
+                                    (V::Int(i), V::Float(f)) => Some(ex(*i, *f)),
+                                    (V::Float(f), V::Int(i)) => Some(ex(*i, *f).reverse()),
+                                    _ => refbuiltins::cmp_vals(x, y),
+                                }
+                            };
+                            let mut e2 = v.clone();
+                            for i in 1..e2.len() {
+                                let mut j = i;
+                                while j > 0 && exact(&e2[j - 1], &e2[j]) == Some(std::cmp::Ordering::Greater) {
+                                    e2.swap(j - 1, j);
+                                    j -= 1;
+                                }
+                            }
+                            ok = fmt(&e2) == g;
+                        }
+                        if ok {
                             CaseOut::pass(class)
                         } else {
-                            // ties (1 vs 1.0 never occur in the domains), so any difference is a real one
                             CaseOut::viol(format!("{} wrong", class), format!("sort({}) gave {} ; a non-decreasing permutation is {}", a.to_src(), g, want))
                         }
                     }
